@@ -234,5 +234,21 @@ def enumeration_handmade():
                     for x in check_graph(aut, g, qinit)[:2]:
                         x.update(qinit=qinit, moore=moore, case=sa)
                         fails.append(x)
+                    # the SAME automaton object with another implementation put in
+                    # its place: the graph must be that of the implementation
+                    # present at call time (no state kept between calls)
+                    n += 1
+                    frame = ' /\\ '.join(
+                        (f"({v}' <=> {v})" if ds[v] == 'bool' else f"({v}' = {v})") for v in ds)
+                    aut.action['impl'] = aut.action['sys'] = frame
+                    aut.init['impl'] = f'~ ({si})' if qinit != r'\E \E' else f'(~ ({si})) /\\ ({ei})'
+                    try:
+                        g2 = ge.action_to_steps(aut, 'env', 'impl', qinit=qinit)
+                    except AssertionError as e:
+                        continue      # e.g. an empty set of initial nodes is refused
+                    for x in check_graph(aut, g2, qinit)[:2]:
+                        x.update(qinit=qinit, moore=moore, case=f'second implementation on the same automaton object: action {frame}, init ~ ({si})')
+                        x['name'] = x['name'] + ' (second enumeration of the same automaton after its implementation was replaced)'
+                        fails.append(x)
         return dict(records=[], stats=dict(), functions={}, bounded=dict(evaluations=n, failures=fails[:6]))
     return run
